@@ -79,7 +79,7 @@ func recordImpl(a map[string]any) (res any) {
 		}
 	}()
 	base := filepath.Join(scratch(), "rec")
-	os.RemoveAll(base)
+	safeRemoveAll(base)
 	work := filepath.Join(base, "work")
 	targets := filepath.Join(base, "targets")
 	os.MkdirAll(work, 0o755)
@@ -136,7 +136,7 @@ func init() {
 	}})
 	regOp(&Op{Name: "matchproducts", Impl: func(a map[string]any) any {
 		base := filepath.Join(scratch(), "mp")
-		os.RemoveAll(base)
+		safeRemoveAll(base)
 		os.MkdirAll(base, 0o755)
 		link := &intoto.Link{Products: map[string]intoto.HashObj{}}
 		if pm, ok := a["products"].(map[string]any); ok {
@@ -183,7 +183,7 @@ func projRes2(m any) any {
 // snapshots: InTotoRun and RecordStart/Stop take materials before and products after the command.
 func snapshotsImpl(a map[string]any) any {
 	base := filepath.Join(scratch(), "snap")
-	os.RemoveAll(base)
+	safeRemoveAll(base)
 	os.MkdirAll(base, 0o755)
 	write := func(m any) {
 		if fm, ok := m.(map[string]any); ok {
@@ -214,7 +214,7 @@ func snapshotsImpl(a map[string]any) any {
 	out["run_products"] = names(l.Products)
 	// record start / stop on a fresh copy of the directory
 	os.Chdir(origWD)
-	os.RemoveAll(base)
+	safeRemoveAll(base)
 	os.MkdirAll(base, 0o755)
 	write(a["before"])
 	os.Chdir(base)
@@ -239,7 +239,7 @@ func snapshotsImpl(a map[string]any) any {
 // symcycle: symlink cycles must end in an error (or a correct record), never hang or crash.
 func symcycleImpl(a map[string]any) (res any) {
 	base := filepath.Join(scratch(), "cyc")
-	os.RemoveAll(base)
+	safeRemoveAll(base)
 	os.MkdirAll(filepath.Join(base, "d"), 0o755)
 	os.WriteFile(filepath.Join(base, "d", "f"), []byte("x"), 0o644)
 	switch str(a["shape"]) {
